@@ -4,12 +4,23 @@ import (
 	"fmt"
 	"testing"
 
+	"github.com/lni/dragonboat/v4/internal/settings"
 	"github.com/lni/dragonboat/v4/internal/vfhelp"
 	"pgregory.net/rapid"
 )
 
-func TestVF_C11_DeliveryOrder(t *testing.T) {
-	st := vfhelp.NewStats("TestVF_C11_DeliveryOrder",
+func TestVF_C11_DeliveryOrder(t *testing.T) { c11Unit(t, "TestVF_C11_DeliveryOrder") }
+
+// TestVF_C11_DeliveryOrderUnbatched is the same check run in a working
+// directory whose dragonboat-soft-settings.json switches BatchedEntryApply off
+// and shrinks TaskQueueInitialCap (entry-at-a-time path of the concurrent
+// kinds, task queue compaction).
+func TestVF_C11_DeliveryOrderUnbatched(t *testing.T) {
+	c11Unit(t, "TestVF_C11_DeliveryOrderUnbatched")
+}
+
+func c11Unit(t *testing.T, unit string) {
+	st := vfhelp.NewStats(unit,
 		"the A/B/C streams of C08 (session duplicates, unknown sessions, membership changes, restarts, installs, streamed "+
 			"snapshots, generated on-disk Open index, overlapping re-delivery) with instrumented IStateMachine / "+
 			"IConcurrentStateMachine / IOnDiskStateMachine recording every call; oracle per incarnation: Update indexes strictly "+
@@ -19,12 +30,15 @@ func TestVF_C11_DeliveryOrder(t *testing.T) {
 			"call after Close. nontrivial = an on-disk incarnation was re-fed proposals at or below its Open index, or an "+
 			"incarnation that recovered a snapshot later met a session duplicate, or a snapshot was installed mid-incarnation")
 	defer st.Flush()
+	st.Set("BatchedEntryApply", settings.Soft.BatchedEntryApply)
+	st.Set("TaskQueueInitialCap", settings.Soft.TaskQueueInitialCap)
 	var sampled [3]bool
 	rapid.Check(t, func(t *rapid.T) {
 		tr := runTwins(t)
 		skipOnDisk, dupAfterRecover, midInstall := checkC11(t, tr)
 		nt := skipOnDisk > 0 || dupAfterRecover > 0 || midInstall > 0
 		labels := tr.labels()
+		labels = append(labels, fmt.Sprintf("setting:BatchedEntryApply=%t", settings.Soft.BatchedEntryApply))
 		if skipOnDisk > 0 {
 			labels = append(labels, "NT:ondisk-refed-below-open-index")
 		}
